@@ -216,7 +216,7 @@ class Source:
         if len(hits) <= nth:
             raise Lost("impl %r not found in %s" % (header_regex, self.path))
         s, e, _ = hits[nth]
-        i = e
+        i = s
         while not (self.mask[i] and self.text[i] == '{'):
             i += 1
         return s, i, match_brace(self.text, self.mask, i)
